@@ -301,8 +301,9 @@ impl<'a> Interp<'a> {
             let mut pair = (2 * level, 2 * level + 1);
             if let (Some(l), Some(_)) = (b.left, b.right) {
                 let ch = &flat.nodes[b.branch].children;
-                let op = ch.iter().copied().filter(|c| !matches!(flat.nodes[*c].kind, K::Pred(_))).nth(1);
-                let _ = l;
+                // the operator is the first element behind the left operand (decorations in front
+                // of the operand, `?1 @x e OP e`, do not count)
+                let op = ch.iter().copied().enumerate().find(|(j, c)| *j > l && !matches!(flat.nodes[*c].kind, K::Pred(_))).map(|(_, c)| c);
                 if let Some(op) = op {
                     let toks: Vec<usize> = self.info.sets.first[op].iter().collect();
                     if !toks.is_empty() && toks.iter().all(|t| self.g.right.contains(t)) {
@@ -350,7 +351,7 @@ impl<'a> Interp<'a> {
             for (i, b) in pb.iter().enumerate() {
                 let Some(left) = b.left else { continue };
                 let ch = flat.nodes[b.branch].children.clone();
-                let Some(op) = ch.iter().copied().filter(|c| !matches!(flat.nodes[*c].kind, K::Pred(_))).nth(1) else { continue };
+                let Some(op) = ch.iter().copied().enumerate().find(|(j, c)| *j > left && !matches!(flat.nodes[*c].kind, K::Pred(_))).map(|(_, c)| c) else { continue };
                 if !(self.predict(op).contains(la) && self.guard(b.branch)?) {
                     continue;
                 }
